@@ -2,7 +2,7 @@
 """Self-validation: apply each mutant of mutants/catalogue.py to a scratch copy of /repo (under $TMPDIR,
 removed afterwards), run the quick tier of the checks that must detect it with VERIF_REPO pointing to the
 copy, and record which fired.  Optionally (--tests) also run the pinned test-suite on the mutant.
-Usage: run_mutants.py [--tests] [--only name,name] [--out file]"""
+Usage: run_mutants.py [--tests | --suite-only] [--only name,name] [--out file]"""
 import json, os, shutil, subprocess, sys, tempfile, time
 ROOT = os.path.dirname(os.path.dirname(os.path.abspath(__file__)))
 sys.path.insert(0, ROOT)
@@ -11,11 +11,14 @@ from mutants.catalogue import M  # noqa: E402
 only = None
 if "--only" in sys.argv:
     only = set(sys.argv[sys.argv.index("--only") + 1].split(","))
-with_tests = "--tests" in sys.argv
+with_tests = "--tests" in sys.argv or "--suite-only" in sys.argv
+suite_only = "--suite-only" in sys.argv  # only (re)compute the pinned-suite status of mutants that do not have one yet
 out_file = sys.argv[sys.argv.index("--out") + 1] if "--out" in sys.argv else os.path.join(ROOT, "mutants", "results.json")
 results = json.load(open(out_file)) if os.path.exists(out_file) else {}
 for mu in M:
     if only and mu["name"] not in only:
+        continue
+    if suite_only and "suite_green" in results.get(mu["name"], {}):
         continue
     tmp = tempfile.mkdtemp(prefix="vfmut_")
     dst = os.path.join(tmp, "repo")
@@ -27,7 +30,9 @@ for mu in M:
             print(f"{mu['name']}: PATTERN NOT FOUND"); results[mu["name"]] = dict(error="pattern not found"); continue
         open(path, "w", encoding="utf-8").write(src.replace(mu["old"], mu["new"], 1))
         r = dict(note=mu["note"], expects=mu["expects"], fired={}, keys={})
-        for chk in mu["expects"]:
+        if suite_only and mu["name"] in results:
+            r = results[mu["name"]]
+        for chk in ([] if suite_only else mu["expects"]):
             t = time.time()
             p = subprocess.run([os.path.join(ROOT, "check"), chk, "--tier", "quick", "--no-evidence"],
                                env=dict(os.environ, VERIF_REPO=dst), capture_output=True, text=True, cwd=ROOT)
